@@ -2,7 +2,7 @@
 """dev aid: (re)generate the seeded-changes table of DESIGN.md 13.6 from the outputs of dev/seeds.sh (later files override earlier)"""
 import re, json, os, sys
 os.chdir(os.path.dirname(os.path.dirname(os.path.abspath(__file__))))
-files = ["out/seeds_matrix.txt", "out/seeds_m3.txt", "out/seeds_c05m3.txt", "out/seeds_m4b.txt", "out/seeds_c10m4.txt", "out/seeds_m5b.txt", "out/seeds_m6b.txt", "out/seeds_m15c.txt", "out/seeds_m6c.txt", "out/seeds_m7b.txt"]
+files = ["out/seeds_matrix.txt", "out/seeds_m3.txt", "out/seeds_c05m3.txt", "out/seeds_m4b.txt", "out/seeds_c10m4.txt", "out/seeds_m5b.txt", "out/seeds_m6b.txt", "out/seeds_m15c.txt", "out/seeds_m6c.txt", "out/seeds_m7b.txt", "out/seeds_m8r.txt"]
 rows = {}
 for path in files:
     if not os.path.exists(path):
